@@ -4,6 +4,27 @@
 #include <sys/resource.h>
 #include <sys/stat.h>
 #include <unistd.h>
+#include <dlfcn.h>
+#include <sys/uio.h>
+#include <cerrno>
+// Fault injection at the level of the OS call (g++/ASan harness only): the n-th write()/writev() of a save is refused once with ENOSPC.
+// Unlike RLIMIT_FSIZE this also reaches the writes that go BACK into the file (the header / parameter back-patches at offsets 16, 514, ...).
+#if defined(__SANITIZE_ADDRESS__) && !defined(__clang__)
+#define VF_C15_WRITE_HOOK 1
+namespace { volatile int g_wArmed = 0; volatile long g_wCount = 0, g_wFailAt = -1; }
+extern "C" ssize_t write(int fd, const void *buf, size_t n) {
+    typedef ssize_t (*fn)(int, const void *, size_t);
+    static fn real = reinterpret_cast<fn>(dlsym(RTLD_NEXT, "write"));
+    if (g_wArmed && fd > 2) { long i = g_wCount++; if (i == g_wFailAt) { errno = ENOSPC; return -1; } }
+    return real(fd, buf, n);
+}
+extern "C" ssize_t writev(int fd, const struct iovec *iov, int cnt) {
+    typedef ssize_t (*fn)(int, const struct iovec *, int);
+    static fn real = reinterpret_cast<fn>(dlsym(RTLD_NEXT, "writev"));
+    if (g_wArmed && fd > 2) { long i = g_wCount++; if (i == g_wFailAt) { errno = ENOSPC; return -1; } }
+    return real(fd, iov, cnt);
+}
+#endif
 namespace vf {
 const char *ntC15 = "non-trivial = injected fault that strikes after at least one byte of the output was accepted (RLIMIT_FSIZE = k >= 1, /dev/full); distinct by (object, fault kind, offset)";
 
@@ -116,6 +137,34 @@ CaseResult runC15(const Case &c, RunCtx &ctx) {
             }
         }
     }
+#ifdef VF_C15_WRITE_HOOK
+    // ---- the n-th OS write of the save refused once (ENOSPC), every other one accepted ----
+    {
+        const std::string wp = in.path("c15_nth.c3d");
+        g_wCount = 0; g_wFailAt = -1; g_wArmed = 1;
+        Attempt c0 = tryWrite(o, wp);
+        g_wArmed = 0;
+        const long W = g_wCount;
+        long long nth = 0, nthThrown = 0;
+        if (!c0.threw && W > 0) {
+            const long stride = (W <= 1500 || ctx.tier) ? 1 : (W / 1500 + 1);
+            for (long n = 0; n < W; n += stride) {
+                remove(wp.c_str());
+                g_wCount = 0; g_wFailAt = n; g_wArmed = 1;
+                Attempt a = tryWrite(o, wp);
+                g_wArmed = 0; g_wFailAt = -1;
+                ++nth; ++faults; ++afterFirstByte; ++transient;
+                if (a.threw) { ++nthThrown; ++transientThrown; classes[a.cls]++; if (a.cls == "non_std") { r.fail("write threw a non-standard exception when one OS write was refused"); return r; } continue; }
+                std::vector<uint8_t> b; readBytes(wp, b);
+                if (b != ref) {
+                    r.fail("write returned normally although OS write number " + std::to_string(n) + " of " + std::to_string(W) + " was refused once (ENOSPC; every other write accepted) and the file on disk is not the complete file (" + std::to_string(b.size()) + " of " + std::to_string(N) + " bytes)");
+                    return r;
+                }
+            }
+        }
+        r.counters["nth_write_faults"] = nth; r.counters["nth_write_faults_reported_by_exception"] = nthThrown;
+    }
+#endif
     r.counters["transient_faults"] = transient; r.counters["transient_faults_reported_by_exception"] = transientThrown;
     // ---- no fault: returns normally with the full content ----
     {
